@@ -1206,12 +1206,6 @@ Proof.
 Qed.
 
 (* coordinates of the vectors built by zipping *)
-Lemma nth_map_seq {B} (f : nat -> B) n i d : (i < n)%nat -> nth i (map f (seq 0 n)) d = f i.
-Proof.
-  intro Hi. rewrite (nth_indep _ d (f 0%nat)) by (now rewrite map_length, seq_length).
-  rewrite map_nth. now rewrite seq_nth.
-Qed.
-
 Lemma coord_goodv_normv nobjs dirs mins maxs o i :
   length dirs = nobjs -> length mins = nobjs -> length maxs = nobjs -> length o = nobjs -> (i < nobjs)%nat ->
   coord (goodv dirs (normv mins maxs o)) i =
@@ -1251,12 +1245,6 @@ Proof.
       try apply Qltb_lt in Fx; try apply Qltb_lt in Fy; try apply Qltb_false in Fx; try apply Qltb_false in Fy; lra.
   - lra.
   - lra.
-Qed.
-
-Lemma Qdiv_le_mono a b c : 0 < c -> a <= b -> a / c <= b / c.
-Proof.
-  intros Hc Hab. unfold Qdiv. apply Qmult_le_compat_r; [exact Hab|].
-  apply Qlt_le_weak. now apply Qinv_lt_0_compat.
 Qed.
 
 (* "s is no better than q in objective i" in the declared direction *)
